@@ -445,6 +445,7 @@ class StringIOI(Interface):
 
 
 def m_StringIO(interp, args, kwargs):
+    interp.st.used_models.add('io:StringIO')
     if len(args) > 1 or kwargs.get('newline') != '\n' or set(kwargs) - {'newline'}:
         # any other StringIO (e.g. a plain buffer for a traceback) is the real one, as far as it is concrete
         from .values import contains_sym
